@@ -1,5 +1,5 @@
 (* C01: encode/decode round trip is the identity for every serde data-model value. *)
-From PV Require Import Base MachineInt DataModel Ser De DeFacts.
+From PV Require Import Base MachineInt DataModel Ser De DeFacts SerMethods SerMethodFacts DeMethods DeMethodFacts.
 Open Scope N_scope.
 
 (* for every shape t (all 29 kinds, any nesting), every value v of that shape and every
@@ -20,6 +20,18 @@ Proof.
   split; reflexivity.
 Qed.
 
+(* the encoder of these theorems is what the method bodies of ser/serializer.rs compute (the
+   bodies are re-read from the source on every run; see C02_model_is_the_method_bodies) *)
+Theorem C01_encoder_is_the_method_bodies : forall v : value,
+  flatten_ops (fst (ser_via_methods v)) = enc v /\ snd (ser_via_methods v) = ser_err v.
+Proof. exact enc_via_methods. Qed.
+
+(* ... and the decoder is what the method bodies of de/deserializer.rs compute (see
+   C03_model_is_the_method_bodies) *)
+Theorem C01_decoder_is_the_method_bodies : forall (t : ty) (l : list byte),
+  dvm slice_pop slice_take_n t l = de_slice t l.
+Proof. exact de_slice_is_the_method_bodies. Qed.
+
 (* non-vacuity: a deep mixed value satisfies the premises *)
 Example C01_example :
   let v := VStruct [VInt U16 300; VSome (VStr [104; 105]);
@@ -33,3 +45,5 @@ Proof. split; vm_compute; reflexivity. Qed.
 
 Print Assumptions C01_roundtrip.
 Print Assumptions C01_take_from_bytes.
+Print Assumptions C01_encoder_is_the_method_bodies.
+Print Assumptions C01_decoder_is_the_method_bodies.
